@@ -261,6 +261,14 @@ func loadDeb2Control(archive map[string]*ArEntry, deb *Deb) error {
 					return err
 				}
 				if path.Clean(member.Name) == "control" {
+					if !isPlainFile(member) {
+						/* A directory, a link - or a sparse file, whose holes
+						 * archive/tar reads as zeros that are not in the
+						 * input: a header of 512 bytes can declare 2^62 of
+						 * them. */
+						closer.Close()
+						return fmt.Errorf("The control file of the .deb is not a regular file")
+					}
 					err1 := control.Unmarshal(&deb.Control, archive)
 					err2 := closer.Close()
 					if err1 != nil {
@@ -276,6 +284,20 @@ func loadDeb2Control(archive map[string]*ArEntry, deb *Deb) error {
 }
 
 // }}}
+
+// isPlainFile reports whether a tar entry is a regular file all of whose bytes
+// are stored in the archive (not a GNU or PAX sparse file).
+func isPlainFile(header *tar.Header) bool {
+	if header.Typeflag != tar.TypeReg && header.Typeflag != tar.TypeRegA {
+		return false
+	}
+	for key := range header.PAXRecords {
+		if strings.HasPrefix(key, "GNU.sparse.") {
+			return false
+		}
+	}
+	return true
+}
 
 // Decode .deb 2.0 package data into the struct {{{
 
